@@ -158,6 +158,29 @@ const ARRAY_NESTS: [(&str, &str, &str); 6] = [
     ("in-a-generic-enum", "GOpt[[int32; L]]", "GSom([1, 2, 3])"),
     ("array-of-arrays", "[[int32; L]; 1]", "[[1, 2, 3]]"),
 ];
+/// element kinds of an array literal checked against a written array type: (name, element type, one element)
+const LITERAL_ELEMS: [(&str, &str, &str); 8] = [
+    ("int32", "int32", "1"),
+    ("string", "string", "\"s\""),
+    ("dyn", "dyn Shw", "1"),
+    ("tuple-holding-dyn", "(int32, dyn Shw)", "(1, 2)"),
+    ("array-of-dyn", "[dyn Shw; 1]", "[d0()]"),
+    ("generic-struct", "Bx[int32]", "Bx { v: 1 }"),
+    ("function", "(int32) -> int32", "|q: int32| q + 1"),
+    ("struct-holding-dyn", "Hd", "Hd { d: 1 }"),
+];
+/// where the literal is checked against `[E; 2]`: (name, program with T = element type and § = the literal)
+const LITERAL_PLACES: [(&str, &str); 9] = [
+    ("let-annotation", "fn main() -> unit { let a: [T; 2] = §; let _ = a; string_println(\"x\") }"),
+    ("argument", "fn take(a: [T; 2]) -> unit { () }\nfn main() -> unit { take(§); string_println(\"x\") }"),
+    ("result", "fn make() -> [T; 2] { § }\nfn main() -> unit { let _ = make(); string_println(\"x\") }"),
+    ("struct-field", "struct Holder { items: [T; 2] }\nfn main() -> unit { let h = Holder { items: § }; let _ = h; string_println(\"x\") }"),
+    ("tuple-component", "fn main() -> unit { let a: (int32, [T; 2]) = (0, §); let _ = a; string_println(\"x\") }"),
+    ("inner-array", "fn main() -> unit { let a: [[T; 2]; 1] = [§]; let _ = a; string_println(\"x\") }"),
+    ("branch-result", "fn main() -> unit { let a: [T; 2] = if true { § } else { § }; let _ = a; string_println(\"x\") }"),
+    ("match-arm-result", "fn main() -> unit { let a: [T; 2] = match 0 { 0 => §, _ => § }; let _ = a; string_println(\"x\") }"),
+    ("closure-argument", "fn main() -> unit { let f = |a: [T; 2]| 0; let _ = f(§); string_println(\"x\") }"),
+];
 /// 2^64 - 1 is the number the compiler itself uses for "any length"
 const ARRAY_LENGTHS: [&str; 7] = ["3", "2", "0", "4", "9223372036854775807", "18446744073709551615", "18446744073709551616"];
 /// (type, suffix, largest value, unused)
@@ -240,7 +263,7 @@ impl Family for IllTyped {
         &["C03", "C04", "C10"]
     }
     fn rule(&self) -> &'static str {
-        "30 typed positions (operator operands, annotated let, parameters, conditions, return position, struct field, constructor payload, array element/index/set, ref_set, vec_push, branches, closure/method/generic arguments, the argument of a trait method called in path / dot form on a concrete receiver and on a type-parameter receiver whose type is known at the call or only after a generic call / through a closure parameter / through a field of a generic struct) x 10 expressions of different types (the well-typed one must be accepted, the other nine rejected by the typer); 32 structural errors (a field / method result / pattern variable of a generic struct or enum used at the type of another of its parameters, inside a generic function whose parameters carry the struct's parameter names in another order; array length in annotation/param/return, unknown/missing/extra field, call and constructor arity, tuple projection range, pattern arity/type, calling a non-function, unknown type/variant; a trait method called in path form with too many / too few arguments, without the bound, under another bound, with no impl for the receiver - the receiver reached directly, through a generic call, a closure parameter, a field); literal patterns: 4 literal kinds x 10 scrutinee types x 6 positions (directly; under a generic constructor, in a tuple from a generic call, on a closure parameter, on a let-bound generic result - the scrutinee's type still being inferred; against a rigid type parameter): rejected unless the literal's kind is the type's; written types: 24 spellings (6 well-formed; unknown names bare and under Vec / Ref / array / tuple / function types / a generic struct, a generic struct with no / too many arguments also under Vec, arguments given to a non-generic struct or a builtin, dyn of a missing trait / of a struct, the enclosing function's type parameter and one that is nobody's) x 16 places a type can be written (parameter, result, struct field, enum payload, let annotation in main / in an unused function / in a closure / in a match arm / on a tuple pattern / in a generic function, closure parameter plain / nested / second, method parameter, trait method parameter, extern parameter): accepted iff well-formed; operator domain: 12 binary + 2 unary operators x 13 operand types, written directly and inside a generic function instantiated at the type (accepted iff inside the documented domain). non-trivial = ill-typed variants; distinct = distinct source text; plus literal patterns at the edge of every integer type (the largest value, one past it, twice past it) x the 6 places a scrutinee type is learned x 8 types: past the largest value must be rejected (also reported under C10); plus array lengths written in a signature (3 = the value's length, 2, 0, 4, 2^63-1, 2^64-1 - the compiler's own any-length marker -, 2^64) x 6 nestings (bare, in a Ref / tuple / Vec / generic enum, array of arrays) x called directly / through a closure: only 3 is accepted, every case terminates"
+        "30 typed positions (operator operands, annotated let, parameters, conditions, return position, struct field, constructor payload, array element/index/set, ref_set, vec_push, branches, closure/method/generic arguments, the argument of a trait method called in path / dot form on a concrete receiver and on a type-parameter receiver whose type is known at the call or only after a generic call / through a closure parameter / through a field of a generic struct) x 10 expressions of different types (the well-typed one must be accepted, the other nine rejected by the typer); 32 structural errors (a field / method result / pattern variable of a generic struct or enum used at the type of another of its parameters, inside a generic function whose parameters carry the struct's parameter names in another order; array length in annotation/param/return, unknown/missing/extra field, call and constructor arity, tuple projection range, pattern arity/type, calling a non-function, unknown type/variant; a trait method called in path form with too many / too few arguments, without the bound, under another bound, with no impl for the receiver - the receiver reached directly, through a generic call, a closure parameter, a field); literal patterns: 4 literal kinds x 10 scrutinee types x 6 positions (directly; under a generic constructor, in a tuple from a generic call, on a closure parameter, on a let-bound generic result - the scrutinee's type still being inferred; against a rigid type parameter): rejected unless the literal's kind is the type's; written types: 24 spellings (6 well-formed; unknown names bare and under Vec / Ref / array / tuple / function types / a generic struct, a generic struct with no / too many arguments also under Vec, arguments given to a non-generic struct or a builtin, dyn of a missing trait / of a struct, the enclosing function's type parameter and one that is nobody's) x 16 places a type can be written (parameter, result, struct field, enum payload, let annotation in main / in an unused function / in a closure / in a match arm / on a tuple pattern / in a generic function, closure parameter plain / nested / second, method parameter, trait method parameter, extern parameter): accepted iff well-formed; operator domain: 12 binary + 2 unary operators x 13 operand types, written directly and inside a generic function instantiated at the type (accepted iff inside the documented domain). non-trivial = ill-typed variants; distinct = distinct source text; plus literal patterns at the edge of every integer type (the largest value, one past it, twice past it) x the 6 places a scrutinee type is learned x 8 types: past the largest value must be rejected (also reported under C10); plus array lengths written in a signature (3 = the value's length, 2, 0, 4, 2^63-1, 2^64-1 - the compiler's own any-length marker -, 2^64) x 6 nestings (bare, in a Ref / tuple / Vec / generic enum, array of arrays) x called directly / through a closure: only 3 is accepted, every case terminates; plus array literals of 1, 2, 3 elements checked against a written [E; 2] for 8 element kinds (int32, string, dyn, tuple / array / struct holding a dyn, generic struct, function) in 9 places (let annotation, argument, result, struct field, tuple component, inner array, branch result, match-arm result, closure result): only 2 elements are accepted"
     }
     fn cases(&self, _tier: Tier) -> Box<dyn Iterator<Item = Value> + '_> {
         let mut v = Vec::new();
@@ -271,6 +294,16 @@ impl Family for IllTyped {
             for l in ARRAY_LENGTHS {
                 for route in ["called-directly", "through-a-closure"] {
                     v.push(json!({"kind": "array-length", "nest": n, "length": l, "route": route}));
+                }
+            }
+        }
+        // array literals of 1, 2, 3 elements checked against [E; 2], for 8 element kinds in 9 places
+        for (e, _, _) in LITERAL_ELEMS {
+            for (pl, _) in LITERAL_PLACES {
+                for n in [1u64, 2, 3] {
+                    for spelling in ["typed-items", "raw-items"] {
+                        v.push(json!({"kind": "array-literal-length", "elem": e, "place": pl, "items": n, "spelling": spelling}));
+                    }
                 }
             }
         }
@@ -329,6 +362,24 @@ impl Family for IllTyped {
                 let text = format!("{}enum GOpt[T] {{ GNon, GSom(T) }}\nfn keep(r: {}) -> {} {{ r }}\nfn main() -> unit {{\n    {}\n    string_println(\"x\")\n}}\n", PRELUDE, ty, ty, call);
                 // the value is an array of three elements: only the length 3 fits
                 (text, len == "3", format!("array-length={};nest={};route={}", len, nest, route))
+            }
+            "array-literal-length" => {
+                let (en, pl, n) = (case["elem"].as_str().unwrap(), case["place"].as_str().unwrap(), case["items"].as_u64().unwrap());
+                let (_, ety, item) = LITERAL_ELEMS.iter().find(|(k, _, _)| *k == en).unwrap();
+                let (_, tmpl) = LITERAL_PLACES.iter().find(|(k, _)| *k == pl).unwrap();
+                // typed items: results of a function whose result type is the element type; raw items: the
+                // expression itself (for element types holding a dyn that needs a coercion per item, which
+                // goml may or may not offer: two raw items are then not judged)
+                let spelling = case["spelling"].as_str().unwrap();
+                let holds_dyn = ety.contains("dyn");
+                let one = if spelling == "typed-items" { "e0()" } else { *item };
+                let lit = format!("[{}]", vec![one; n as usize].join(", "));
+                let text = format!("{}trait Shw {{ fn shw(Self) -> string; }}\nimpl Shw for int32 {{ fn shw(self: int32) -> string {{ int32_to_string(self) }} }}\nstruct Bx[T] {{ v: T }}\nstruct Hd {{ d: dyn Shw }}\nfn d0() -> dyn Shw {{ 1 }}\nfn e0() -> {} {{ {} }}\n{}\n", PRELUDE, ety, item, tmpl.replace('T', ety).replace('§', &lit));
+                if n == 2 && spelling == "raw-items" && holds_dyn {
+                    rep.tag("inapplicable");
+                    return rep;
+                }
+                (text, n == 2, format!("array-literal-length;elem={};place={};items={};{}", en, pl, n, spelling))
             }
             "literal-pattern-range" => {
                 let (pos, ty, which) = (case["position"].as_str().unwrap(), case["ty"].as_str().unwrap(), case["literal"].as_str().unwrap());
@@ -414,6 +465,10 @@ impl Family for IllTyped {
                 rep.outcome = Some(format!("rejected:{}", stage));
                 if should_accept {
                     rep.tag(format!("well-typed:rejected:{}", stage));
+                    if case["kind"] == "array-literal-length" {
+                        // the control of a place x element kind: without it the two ill-typed lengths say nothing
+                        rep.tag(format!("machinery:control-rejected:{}", site));
+                    }
                     rep.sample = Some(json!({"site": site, "rejected": msg}));
                 } else if stage == "compile" {
                     rep.tag("ill-typed:rejected-late");
